@@ -29,7 +29,7 @@ type C19Case struct {
 
 var c19Puncts = []string{"*", "=", "==", "!", "!=", "<", "<=", ">", ">=", "&&", "||", "(", ")", "[", "]", "{", "}", ",", ":"}
 var c19Kws = []string{"script", "raw", "text", "movement", "mart", "mapscripts", "format", "var", "flag", "defeated", "TRUE", "FALSE", "true", "false", "if", "else", "elif", "do", "while", "break", "continue", "switch", "case", "default", "global", "local", "poryswitch", "const", "value", "moves"}
-var c19Illegal = []string{"&", "|", "/", "-", ";", "@", ".", "+", "€", "→", "$", "%", "^", "~", "?", "'", "\\", "§", "😀"}
+var c19Illegal = []string{"\ufeff", "&", "|", "/", "-", ";", "@", ".", "+", "€", "→", "$", "%", "^", "~", "?", "'", "\\", "§", "😀"}
 
 func genLexemeGroup(t *rapid.T) []Lexeme {
 	switch rapid.IntRange(0, 11).Draw(t, "cls") {
